@@ -88,6 +88,9 @@ pub struct SimNode {
     watcher: watch::Receiver<std::collections::BTreeMap<ChitchatId, NodeState>>,
     sends: u64,
     _listener: Option<ListenerHandle>,
+    /// explicit subscriptions of the listen suite: (listener id, prefix, handle while droppable)
+    pub subs: Vec<(u64, String, Option<ListenerHandle>)>,
+    pub calls: Arc<Mutex<Vec<String>>>,
     _seeds_tx: watch::Sender<HashSet<SocketAddr>>,
 }
 
@@ -346,6 +349,8 @@ impl Sim {
             cb_count,
             watcher,
             sends: 0,
+            subs: Vec::new(),
+            calls: Arc::new(Mutex::new(Vec::new())),
             _listener: listener,
             _seeds_tx: seeds_tx,
         });
@@ -554,6 +559,66 @@ impl Sim {
             self.record(&format!("ENCODE {dump}{tail}"), &hex(&b));
         }
         self.decode(bytes);
+    }
+
+    /// subscribe_event(prefix) with a callback that logs (lid, stripped key, value, member)
+    pub fn subscribe(&mut self, n: usize, lid: u64, prefix: &str, forever: bool) {
+        if self.dead_case {
+            return;
+        }
+        let log = self.nodes[n].calls.clone();
+        let handle = self.nodes[n].chitchat.subscribe_event(prefix, move |e| {
+            log.lock().unwrap().push(format!(
+                "{} {} {} {}",
+                lid,
+                hex(e.key.as_bytes()),
+                hex(e.value.as_bytes()),
+                verif_dump_id(e.node)
+            ));
+        });
+        if forever {
+            handle.forever();
+            self.nodes[n].subs.push((lid, prefix.to_string(), None));
+        } else {
+            self.nodes[n].subs.push((lid, prefix.to_string(), Some(handle)));
+        }
+        self.record(&format!("SUB {} {} {}", n, lid, hex(prefix.as_bytes())), "ok");
+    }
+
+    /// drops the handle of listener `lid` (a no-op for a `forever` listener, whose handle is gone)
+    pub fn drop_listener(&mut self, n: usize, lid: u64) {
+        if self.dead_case {
+            return;
+        }
+        let mut rec = None;
+        for (l, p, h) in self.nodes[n].subs.iter_mut() {
+            if *l == lid {
+                if h.take().is_some() {
+                    rec = Some(p.clone());
+                }
+            }
+        }
+        if let Some(p) = rec {
+            self.record(&format!("UNSUB {} {} {}", n, lid, hex(p.as_bytes())), "ok");
+        }
+    }
+
+    pub fn calls(&mut self, n: usize) {
+        if self.dead_case {
+            return;
+        }
+        let mut l: Vec<String> = std::mem::take(&mut *self.nodes[n].calls.lock().unwrap());
+        l.sort();
+        let mut obs = format!("{}", l.len());
+        for c in l {
+            obs.push(' ');
+            obs.push_str(&c);
+        }
+        self.record(&format!("CALLS {n}"), &obs);
+    }
+
+    pub fn raw_record(&mut self, op: &str, obs: &str) {
+        self.record(op, obs);
     }
 
     pub fn read(&mut self, n: usize, member: &ChitchatId, key: &str, prefix: &str) {
